@@ -27,9 +27,10 @@ LEAN = os.path.join(VERIF, 'lean')
 
 PL = 'modules/pel/peltool/peltool.py'
 HD = 'modules/pel/hexdump.py'
+TY = 'modules/pel/peltool/pel_types.py'
 
-C08 = {'getFileList', 'printPELInHexFormat', 'extractAndSummarizePEL', 'listOption', 'extractAllPELsData', 'printPELCount'}
-ALL = ['getFileList', 'printPELInHexFormat', 'extractAndSummarizePEL', 'parseAndPrintPELFile', 'listOption', 'extractAllPELsData', 'printPELCount',
+C08 = {'parsePELSummary', 'getFileList', 'printPELInHexFormat', 'extractAndSummarizePEL', 'listOption', 'extractAllPELsData', 'printPELCount'}
+ALL = ['parsePELSummary', 'getFileList', 'printPELInHexFormat', 'extractAndSummarizePEL', 'dirParseAndPrintPELFile', 'listOption', 'extractAllPELsData', 'printPELCount',
        'parsePelFromID', 'parsePelFromBmcID', 'parsePelFromPLID', 'parsePelFromSRCID']
 MODS = ['TieC08', 'TieC09', 'TieC10']
 
@@ -127,9 +128,9 @@ MUTANTS = [
     ('B44', 'B', 'parsePelFromID', PL, infn('parsePelFromID', rep('            foundID = True\n', '')), 'parsePelFromID: "not found" also after a match'),
     ('B45', 'B', 'parsePelFromID', PL, infn('parsePelFromID', rep('config, False)', 'config, True)')), 'parsePelFromID: exit on a bad header'),
     ('B46', 'B', 'parsePelFromID', PL, infn('parsePelFromID', rep('processId(config.pelID)', 'processId(config.plid)')), 'parsePelFromID: another id member'),
-    ('B47', 'B', 'parseAndPrintPELFile', PL, infn('parseAndPrintPELFile', rep('                if not config.hex:', '                if config.hex:')), 'parseAndPrintPELFile: hex test negated'),
-    ('B48', 'B', 'parseAndPrintPELFile', PL, infn('parseAndPrintPELFile', rep('                return True', '                return False')), 'parseAndPrintPELFile: reports nothing printed'),
-    ('B49', 'B', 'parseAndPrintPELFile', PL, infn('parseAndPrintPELFile', rep('                    print(json_string)        ', '                    print(json_string, end="")')), 'parseAndPrintPELFile: no final newline'),
+    ('B47', 'B', 'dirParseAndPrintPELFile', PL, infn('parseAndPrintPELFile', rep('                if not config.hex:', '                if config.hex:')), 'parseAndPrintPELFile: hex test negated'),
+    ('B48', 'B', 'dirParseAndPrintPELFile', PL, infn('parseAndPrintPELFile', rep('                return True', '                return False')), 'parseAndPrintPELFile: reports nothing printed'),
+    ('B49', 'B', 'dirParseAndPrintPELFile', PL, infn('parseAndPrintPELFile', rep('                    print(json_string)        ', '                    print(json_string, end="")')), 'parseAndPrintPELFile: no final newline'),
     ('B50', 'B', 'parsePelFromBmcID', PL, infn('parsePelFromBmcID', rep('str(ph.obmcLogID) == config.bmcID', 'str(ph.obmcLogID) != config.bmcID')), 'parsePelFromBmcID: comparison'),
     ('B51', 'B', 'parsePelFromBmcID', PL, infn('parsePelFromBmcID', rep('                        foundID = True\n                        break\n', '                        foundID = True\n')), 'parsePelFromBmcID: walk continues after a hit'),
     ('B52', 'B', 'parsePelFromBmcID', PL, infn('parsePelFromBmcID', rep('                    if str(ph.obmcLogID) == config.bmcID:\n                        stream = DataStream(data, byte_order=\'big\', is_signed=False)\n',
@@ -153,7 +154,38 @@ MUTANTS = [
     ('B69', 'B', 'parsePelFromSRCID', PL, infn('parsePelFromSRCID', rep("sys.exit('Invalid SRC length is provided!')", "print('Invalid SRC length is provided!')")), 'parsePelFromSRCID: message instead of exit'),
     ('B70', 'B', 'parsePelFromSRCID', PL, infn('parsePelFromSRCID', rep("if config.src and config.src in summary['SRC']:", "if config.src or config.src in summary['SRC']:")), 'parsePelFromSRCID: and became or'),
     ('B71', 'B', 'parsePelFromSRCID', PL, infn('parsePelFromSRCID', rep("                    if (config.srcExcludeFile):", "                    elif (config.srcExcludeFile):")), 'parsePelFromSRCID: exclusion only when --src did not match'),
+    # ---------------- behaviour-changing: parsePELSummary itself
+    ('S01', 'B', 'parsePELSummary', PL, infn('parsePELSummary', rep('["Error Details"]["Message"]', '["Error Details"]["Msg"]')), 'parsePELSummary: Message taken from the wrong key'),
+    ('S02', 'B', 'parsePELSummary', PL, infn('parsePELSummary', seq(rep('    summary["PLID"] = ph.pLID\n', ''), rep('    summary = OrderedDict()\n', '    summary = OrderedDict()\n    summary["PLID"] = ph.pLID\n'))),
+     'parsePELSummary: PLID stored before the loop (Message placed after PLID)'),
+    ('S03', 'B', 'parsePELSummary', PL, infn('parsePELSummary', rep('["Error Details"]["Message"]\n            break\n', '["Error Details"]["Message"]\n')), 'parsePELSummary: break dropped (a later primary SRC overwrites)'),
+    ('S04', 'B', 'parsePELSummary', PL, infn('parsePELSummary', rep('SectionID.primarySRC.value', 'SectionID.secondarySRC.value')), 'parsePELSummary: summary of a secondary SRC'),
+    ('S05', 'B', 'parsePELSummary', PL, infn('parsePELSummary', rep('if "Error Details" in section_json', 'if "Error Details" not in section_json')), 'parsePELSummary: membership test negated'),
+    ('S06', 'B', 'parsePELSummary', PL, infn('parsePELSummary', rep('summary["SRC"] =', 'summary["Src"] =')), 'parsePELSummary: key text'),
+    ('S07', 'B', 'parsePELSummary', PL, infn('parsePELSummary', rep('out["User Header"]["Event Severity"]', 'out["User Header"]["Event Type"]')), 'parsePELSummary: another member of the user header'),
+    ('S08', 'B', 'parsePELSummary', PL, infn('parsePELSummary', rep('range(2, ph.sectionCount)', 'range(1, ph.sectionCount)')), 'parsePELSummary: one more iteration'),
+    ('S09', 'B', 'parsePELSummary', PL, infn('parsePELSummary', rep('    if not considerPEL(uh, config):\n        return "", ""\n', '')), 'parsePELSummary: selection ignored'),
+    ('S10', 'B', 'parsePELSummary', PL, infn('parsePELSummary', rep('eid = ph.lEID', 'eid = ph.pLID')), 'parsePELSummary: the platform log id returned as entry id'),
+    ('S11', 'B', 'parsePELSummary', PL, infn('parsePELSummary', rep('    summary["Commit Time"] = ph.commitTime\n', '')), 'parsePELSummary: a member dropped'),
+    ('S12', 'B', 'parsePELSummary', PL, infn('parsePELSummary', rep('    ret, uh = generateUH(stream, ph.creatorID, out)\n    if ret is False:\n        return "", ""', '    ret, uh = generateUH(stream, ph.creatorID, out)\n    if ret is False:\n        return eid, ""')),
+     'parsePELSummary: entry id returned for a bad user header'),
+    ('S13', 'B', 'parsePELSummary', TY, rep('primarySRC = 0x5053', 'primarySRC = 0x5054'), 'pel_types: value of SectionID.primarySRC'),
+    ('S14', 'B', 'parsePELSummary', PL, infn('parsePELSummary', rep('componentID, ph.creatorID, config)', 'componentID, "", config)')), 'parsePELSummary: empty creator id handed to sectionFun'),
+    ('S15', 'B', 'parsePELSummary', PL, infn('parsePELSummary', rep('    summary["CreatorID"] = out["Private Header"]["Creator Subsystem"]\n    summary["Subsystem"] = out["User Header"]["Subsystem"]\n',
+                                                                  '    summary["Subsystem"] = out["User Header"]["Subsystem"]\n    summary["CreatorID"] = out["Private Header"]["Creator Subsystem"]\n')),
+     'parsePELSummary: two members in another order'),
+    ('S16', 'B', 'parsePELSummary', PL, infn('parsePELSummary', rep('section_json["Primary SRC"]["Reference Code"]', 'section_json["Primary SRC"]["Valid Word Count"]')), 'parsePELSummary: SRC taken from another member'),
+    ('S17', 'B', 'parsePELSummary', PL, infn('parsePELSummary', rep('out["Private Header"]["Created by"]', 'out["User Header"]["Created by"]')), 'parsePELSummary: CompID looked up in the user header (KeyError)'),
     # ---------------- behaviour-preserving
+    ('SP1', 'P', 'parsePELSummary', PL, infn('parsePELSummary', seq(rep('section_json', 'sj', 5), rep('summary', 'table', 11))), 'parsePELSummary: locals renamed'),
+    ('SP2', 'P', 'parsePELSummary', PL, infn('parsePELSummary', rep('    ret, ph = generatePH(stream, out)\n    if ret is False:', '    ret, ph = generatePH(stream, out)\n    if not ret:')), 'parsePELSummary: `ret is False` -> `not ret`'),
+    ('SP3', 'P', 'parsePELSummary', PL, infn('parsePELSummary', rep('            summary["SRC"] = section_json["Primary SRC"]["Reference Code"]\n', '            doc = section_json["Primary SRC"]\n            summary["SRC"] = doc["Reference Code"]\n')),
+     'parsePELSummary: temporary extracted'),
+    ('SP4', 'P', 'parsePELSummary', PL, infn('parsePELSummary', rep('    eid = ph.lEID\n    ret, uh = generateUH(stream, ph.creatorID, out)\n    if ret is False:\n        return "", ""\n',
+                                                                  '    ret, uh = generateUH(stream, ph.creatorID, out)\n    if ret is False:\n        return "", ""\n    eid = ph.lEID\n')), 'parsePELSummary: an independent statement moved'),
+    ('SP5', 'P', 'parsePELSummary', PL, infn('parsePELSummary', rep('            if "Error Details" in section_json["Primary SRC"] :\n                summary["Message"] = section_json["Primary SRC"]["Error Details"]["Message"]\n            break\n',
+                                                                  '            if not ("Error Details" in section_json["Primary SRC"]):\n                break\n            summary["Message"] = section_json["Primary SRC"]["Error Details"]["Message"]\n            break\n')),
+     'parsePELSummary: the Message branch written with an early break'),
     ('P01', 'P', 'listOption', PL, infn('listOption', seq(rep('final_summary', 'acc', 3), rep('file_list', 'names', 2), rep(' file ', ' name '), rep(', file)', ', name)'))), 'listOption: locals renamed'),
     ('P02', 'P', 'listOption', PL, infn('listOption', rep('def listOption(path: str, config: Config):', 'def listOption(directory: str, cfg: Config) -> None:\n    """list the PELs"""\n    path = directory\n    config = cfg  # same object')),
      'listOption: parameters renamed, docstring, comment, return annotation, aliases'),
@@ -178,7 +210,7 @@ MUTANTS = [
                                                                          "                    if config.srcExcludeFile and summary['SRC'] not in src_exclude_file_data:\n                        if True:\n")), 'parsePelFromSRCID: nested ifs merged'),
     ('P17', 'P', 'parsePelFromPLID', PL, infn('parsePelFromPLID', rep(HEXBRANCH, HEXBRANCH_SWAPPED)), 'parsePelFromPLID: `if c: A else: B` -> `if not c: B else: A`'),
     ('P18', 'P', 'printPELInHexFormat', PL, infn('printPELInHexFormat', rep('        mv = memoryview(data)\n        hexdata = hexdump(mv)\n', '        hexdata = hexdump(memoryview(data))\n')), 'printPELInHexFormat: temporary inlined'),
-    ('P19', 'P', 'parseAndPrintPELFile', PL, infn('parseAndPrintPELFile', rep('            _, json_string = parsePEL(', '            entry, json_string = parsePEL(')), 'parseAndPrintPELFile: `_` renamed'),
+    ('P19', 'P', 'dirParseAndPrintPELFile', PL, infn('parseAndPrintPELFile', rep('            _, json_string = parsePEL(', '            entry, json_string = parsePEL(')), 'parseAndPrintPELFile: `_` renamed'),
     ('P20', 'P', 'parsePelFromID', PL, infn('parsePelFromID', rep('            if pelID not in file:\n                continue\n            parseAndPrintPELFile(os.path.join(root, file), config, False)\n            foundID = True\n            break\n',
                                                                   '            if pelID in file:\n                parseAndPrintPELFile(os.path.join(root, file), config, False)\n                foundID = True\n                break\n')),
      'parsePelFromID: `if not c: continue; A` -> `if c: A`'),
@@ -194,8 +226,12 @@ MUTANTS = [
 ]
 
 
+EXTRA_ENV = {}
+
+
 def run(cmd, cwd, timeout=1800):
     env = dict(os.environ, VERIF_REPO=REPO, PYTHONDONTWRITEBYTECODE='1')
+    env.update(EXTRA_ENV)
     r = subprocess.run(cmd, cwd=cwd, env=env, stdout=subprocess.PIPE, stderr=subprocess.STDOUT, text=True, timeout=timeout)
     return r.returncode, r.stdout
 
@@ -263,6 +299,7 @@ def main():
         sys.exit('the worktree %s is not clean:\n%s' % (REPO, out))
     rows = []
     bad = 0
+    nnone = nnone_bad = nref = nref_bad = 0
     fmt = '%-4s %-1s %-22s %-11s %-7s %s'
     try:
         t, p, d = evaluate('-')
@@ -307,9 +344,61 @@ def main():
                          '%s | %s%s' % (verdict, desc, (' | ' + d) if d else '')))
             sys.stdout.flush()
             rows.append((mid, kind, t, p))
+        # every generated definition withdrawn in turn (`none`): the Tie modules must still build (UNAVAILABLE is never "tie broken")
+        nnone = nnone_bad = 0
+        for i, name in enumerate(ALL + [','.join(ALL)]):
+            mid = 'N%02d' % (i + 1)
+            if sel and sel not in mid and sel not in name:
+                continue
+            EXTRA_ENV['VERIF_DIRMODES_NONE'] = name
+            try:
+                t, p, d = evaluate(name if ',' not in name else ALL[0])
+            finally:
+                EXTRA_ENV.pop('VERIF_DIRMODES_NONE', None)
+            nnone += 1
+            good = (t is False) and p
+            nnone_bad += not good
+            bad += not good
+            print(fmt % (mid, 'N', name[:22], 'UNAVAILABLE' if t is False else 'yes?', 'builds' if p else 'BROKEN',
+                         ('ok (definition none: Tie modules build)' if good else '*** definition none but the Tie modules do not build ***') + ((' | ' + d) if d and not good else '')))
+            sys.stdout.flush()
+        # the independent harmless refactorings (harmless/*/patch.diff, + the directories of VERIF_HARMLESS_DIRS): proved or unavailable, never broken
+        nref = nref_bad = 0
+        dirs = [os.path.join(VERIF, 'harmless')] + [x for x in os.environ.get('VERIF_HARMLESS_DIRS', '').split(':') if x]
+        seen = set()
+        for dd in dirs:
+            if not os.path.isdir(dd):
+                continue
+            for name in sorted(os.listdir(dd)):
+                pf = os.path.join(dd, name, 'patch.diff')
+                if name in seen or not os.path.exists(pf):
+                    continue
+                seen.add(name)
+                text = open(pf, encoding='utf-8', errors='replace').read()
+                if not any(x in text for x in (PL, HD, TY)):
+                    continue
+                if sel and sel not in name:
+                    continue
+                rc, out = run(['git', 'apply', pf], REPO)
+                if rc != 0:
+                    print(fmt % (name, 'R', '(refactoring)', '-', '-', 'patch does not apply: ' + out.strip()[:80]))
+                    restore()
+                    continue
+                try:
+                    t, p, d = evaluate('-')
+                finally:
+                    restore()
+                nref += 1
+                nref_bad += not p
+                bad += not p
+                print(fmt % (name, 'R', '(refactoring)', 'see detail', 'builds' if p else 'BROKEN',
+                             ('ok' if p else 'FALSE ALARM (tie broken on an independent harmless refactoring)') + ((' | ' + d) if d else '')))
+                sys.stdout.flush()
     finally:
         restore()
         evaluate('-')
+    print('definitions withdrawn: %d runs, %d with Tie modules that do not build' % (nnone, nnone_bad))
+    print('independent harmless refactorings: %d applied, %d tie broken' % (nref, nref_bad))
     nb = [r for r in rows if r[1] == 'B']
     npp = [r for r in rows if r[1] == 'P']
     print('behaviour-changing: %d mutants, %d tie broken, %d unavailable, %d MISSED' % (
